@@ -242,6 +242,7 @@ class Engine:
         self.global_axioms = {}
         self.mutated_names = set()
         self.alias_of = {}
+        self.escaped = set()
 
     # ---- obligations ---------------------------------------------------------------------------
     def oblige(self, st, kind, label, goal, node=None, note=None):
@@ -815,6 +816,34 @@ class Engine:
                 v = Val(self.uf("cigar_runs", [STR], lib.LINE)(x.t), lib.LINE)
                 st.assume(lib.LINE.len(v.t) >= 0)
                 return v
+        if len(n.generators) == 1 and not n.generators[0].ifs and isinstance(n.generators[0].target, ast.Name):
+            # [f(x) for x in L]: a list of the same length with R[i] == f(L[i]) (f evaluated on a generic element, its failures are the
+            # caller's domain: preconditions on L's elements)
+            L = self.ev(n.generators[0].iter, st)
+            if isinstance(L.ty, SetT):
+                # iteration order of a set: the ghost enumeration (distinct, covers exactly the members); its position map is last_keypos()
+                from . import lib as _lib
+                L, _pos = _lib.key_order(self, L.t, L.ty.elt, st)
+                self.last_keypos = Val(_pos, MapT(L.ty.elt, INT))
+            if isinstance(L.ty, ListT):
+                nm = n.generators[0].target.id
+                i = z3.FreshConst(z3.IntSort(), "lc")
+                saved = st.env.get(nm)
+                st.env[nm] = Val(z3.Select(L.ty.arr(L.t), i), L.ty.elt)
+                self.in_spec += 1
+                try:
+                    body = self.ev(n.elt, st)
+                finally:
+                    self.in_spec -= 1
+                    if saved is None:
+                        st.env.pop(nm, None)
+                    else:
+                        st.env[nm] = saved
+                rty = ListT(body.ty)
+                R = Val(rty.fresh("listcomp"), rty)
+                st.assume(rty.len(R.t) == L.ty.len(L.t))
+                st.assume(z3.ForAll([i], z3.Implies(z3.And(0 <= i, i < L.ty.len(L.t)), z3.Select(rty.arr(R.t), i) == body.t)))
+                return R
         raise Unsupported("list comprehension `%s` at line %s" % (src[:60], n.lineno))
 
     def ev_Lambda(self, n, st):
@@ -1151,6 +1180,9 @@ class Engine:
             root = root.value
         if isinstance(root, ast.Name) and not getattr(self, "in_ghost", False):
             self.mutated_names.add(root.id)
+        if isinstance(root, ast.Name) and root.id in self.escaped and root.id not in self.c.alias_ok and not getattr(self, "in_ghost", False):
+            raise Unsupported("in-place mutation of %s after it was stored into a container (aliasing not modelled) at line %s"
+                              % (root.id, node.lineno))
         if isinstance(root, ast.Name) and root.id in self.alias_derived and root.id not in self.c.alias_ok:
             raise Unsupported("in-place mutation of %s, which was bound from a sub-object (aliasing not modelled) at line %s"
                               % (root.id, node.lineno))
@@ -1249,8 +1281,20 @@ class Engine:
             if anchor.startswith(prefix) and head.startswith(anchor[len(prefix):]):
                 self.anchor_hits.add(anchor)
                 for label, e in claims.items():
-                    self.oblige_spec(st, "assert", label, e, s)
+                    frm = None
+                    if isinstance(e, dict):
+                        e, frm = e["expr"], e["from"]
                     f_ = self.spec_bool(e, st)
+                    if frm is not None and any(l in st.named for l in frm) and not self.in_spec and not self.guards:
+                        # proved from the named facts available on this path (earlier anchor assertions, loop invariants as assumed
+                        # at their loop head) and the quantifier-free path facts only: a smaller, stable query
+                        hyps = [st.named[l] for l in frm if l in st.named] + [f for f in st.pc if not _contains_quantifier(f)]
+                        o = Oblig("%s::assert::%s@L%s" % (self.c.qual, label, getattr(s, "lineno", "?")), "assert",
+                                  list(self.global_axioms.values()) + hyps, f_, getattr(s, "lineno", None))
+                        o.inputs = self.inputs
+                        self.obligs.append(o)
+                    else:
+                        self.oblige_spec(st, "assert", label, e, s)
                     st.assume(f_)  # proved at this point, usable afterwards
                     st.named[label] = f_
 
@@ -1294,8 +1338,16 @@ class Engine:
         for t in s.targets:
             if isinstance(t, ast.Name):
                 st.env.pop(t.id, None)
+            elif isinstance(t, ast.Subscript):
+                d = self.ev(t.value, st)
+                if not (isinstance(d.ty, DictT) and not isinstance(d.ty, OrdDictT)):
+                    raise Unsupported("del of an item of %s at line %s" % (d.ty, s.lineno))
+                k = self.coerce(self.ev(t.slice, st), d.ty.k, st, s, "dict key")
+                self.may_raise(st, "KeyError", z3.Not(z3.Select(d.ty.has(d.t), k.t)), "del of a missing key", s)
+                self.check_alias(t.value, s)
+                self.assign_target(t.value, Val(d.ty.mk(z3.Store(d.ty.has(d.t), k.t, False), d.ty.val(d.t)), d.ty), st, s)
             else:
-                raise Unsupported("del of non-name at line %s" % s.lineno)
+                raise Unsupported("del of %s at line %s" % (type(t).__name__, s.lineno))
         return [(st, "next", None)]
 
     def st_Expr(self, s, st):
@@ -1323,6 +1375,11 @@ class Engine:
         for t in s.targets:
             self.note_alias(t, s.value)
             self.assign_target(t, val, st, s)
+            if isinstance(t, (ast.Subscript, ast.Attribute)) and isinstance(s.value, ast.Name) and isinstance(val.ty, (ObjT, ListT, DictT, SetT)) \
+                    and not getattr(self, "in_ghost", False):
+                # the object bound to this name is now also reachable through the container: the model stored a copy, so a later
+                # in-place mutation through the name would be lost
+                self.escaped.add(s.value.id)
         return [(st, "next", None)]
 
     def st_AnnAssign(self, s, st):
@@ -1335,6 +1392,7 @@ class Engine:
     def note_alias(self, tgt, valnode):
         if isinstance(tgt, ast.Name):
             self.alias_of.pop(tgt.id, None)
+            self.escaped.discard(tgt.id)
             if isinstance(valnode, (ast.Subscript, ast.Attribute)):
                 self.alias_derived.add(tgt.id)
             else:
@@ -1649,7 +1707,9 @@ class Engine:
         n = src.length
         h.assume(z3.And(h.env[idx].t >= 0, h.env[idx].t <= n))
         for name, e in lc.invariant.items():
-            h.assume(self.spec_bool(e, h))
+            f_ = self.spec_bool(e, h)
+            h.assume(f_)
+            h.named["loop%d:%s" % (k, name)] = f_
         for hi, e in enumerate(lc.hints):
             self.oblige_spec(h, "hint", "loop%d:hint%d" % (k, hi), e, s)  # a hint must follow from the invariant; then it may be used
             h.assume(self.spec_bool(e, h))
@@ -1730,7 +1790,9 @@ class Engine:
         h = st.copy()
         self.havoc(mod, h, lc)
         for name, e in lc.invariant.items():
-            h.assume(self.spec_bool(e, h))
+            f_ = self.spec_bool(e, h)
+            h.assume(f_)
+            h.named["loop%d:%s" % (k, name)] = f_
         for hi, e in enumerate(lc.hints):
             self.oblige_spec(h, "hint", "loop%d:hint%d" % (k, hi), e, s)
             h.assume(self.spec_bool(e, h))
